@@ -64,6 +64,11 @@ struct State {
     lock_owner: BTreeMap<usize, Vec<usize>>,
     point_counts: BTreeMap<&'static str, u64>,
     ctx_hash: u64,
+    /// threads that found an RwLock taken when asking for the write side and have not got it yet
+    want_write: BTreeMap<usize, BTreeSet<usize>>,
+    /// this run's RwLock policy: like std's futex RwLock on Linux, no new reader is admitted
+    /// while a writer waits (a second read lock on the same thread then deadlocks behind it)
+    writer_pref: bool,
 }
 
 pub struct Sched {
@@ -100,6 +105,8 @@ impl Sched {
                 lock_owner: BTreeMap::new(),
                 point_counts: BTreeMap::new(),
                 ctx_hash: 0xcbf29ce484222325,
+                want_write: BTreeMap::new(),
+                writer_pref: Rng::new(seed, "rwlock-policy").below(4) != 0,
             }),
             cv: Condvar::new(),
         })
@@ -134,6 +141,11 @@ impl Sched {
         // release bookkeeping for locks it may still hold (after a panic)
         let held = std::mem::take(&mut st.held[tid]);
         for (addr, _) in held {
+            Self::wake_waiters(&mut st, addr);
+        }
+        let wanted: Vec<usize> = st.want_write.iter().filter(|(_, w)| w.contains(&tid)).map(|(a, _)| *a).collect();
+        for addr in wanted {
+            st.want_write.get_mut(&addr).unwrap().remove(&tid);
             Self::wake_waiters(&mut st, addr);
         }
         if st.current == Some(tid) {
@@ -327,9 +339,36 @@ impl Sched {
             SyncKind::AtomicRmw => "atomic_rmw",
         };
         self.yield_point(what);
+        if kind == SyncKind::RwRead {
+            self.reader_gate(addr);
+        }
     }
 
-    pub fn lock_blocked(&self, _kind: SyncKind, addr: usize, name: &'static str) {
+    /// Writer preference: a reader arriving while a writer waits for `addr` queues behind it.
+    fn reader_gate(&self, addr: usize) {
+        let Some(tid) = Self::tid() else { return };
+        let mut st = self.st.lock().unwrap();
+        loop {
+            if st.aborted.is_some() {
+                drop(st);
+                if std::thread::panicking() {
+                    return;
+                }
+                std::panic::resume_unwind(Box::new(SimAbort));
+            }
+            let writer_waits = st.writer_pref && st.want_write.get(&addr).map(|w| w.iter().any(|t| *t != tid)).unwrap_or(false);
+            if !writer_waits {
+                return;
+            }
+            st.threads[tid] = TStatus::Blocked { addr };
+            *st.point_counts.entry("reader_behind_waiting_writer").or_default() += 1;
+            self.pick_next(&mut st, None);
+            self.cv.notify_all();
+            st = self.wait_for_baton(st, tid);
+        }
+    }
+
+    pub fn lock_blocked(&self, kind: SyncKind, addr: usize, name: &'static str) {
         let Some(tid) = Self::tid() else {
             std::thread::yield_now();
             return;
@@ -345,6 +384,9 @@ impl Sched {
         }
         st.addr_name.entry(addr).or_insert(name);
         st.threads[tid] = TStatus::Blocked { addr };
+        if kind == SyncKind::RwWrite {
+            st.want_write.entry(addr).or_default().insert(tid);
+        }
         *st.point_counts.entry("blocked").or_default() += 1;
         self.pick_next(&mut st, None);
         self.cv.notify_all();
@@ -352,9 +394,14 @@ impl Sched {
         drop(st);
     }
 
-    pub fn lock_acquired(&self, _kind: SyncKind, addr: usize, name: &'static str) {
+    pub fn lock_acquired(&self, kind: SyncKind, addr: usize, name: &'static str) {
         let Some(tid) = Self::tid() else { return };
         let mut st = self.st.lock().unwrap();
+        if kind == SyncKind::RwWrite
+            && let Some(w) = st.want_write.get_mut(&addr)
+        {
+            w.remove(&tid);
+        }
         let held_names: Vec<&'static str> = st.held[tid].iter().map(|(_, n)| *n).collect();
         let common: BTreeSet<String> = held_names.iter().map(|n| short(n).to_string()).collect();
         for h in &held_names {
